@@ -242,8 +242,8 @@ def r176_setup_once(ctx):
     ctx.ob("R17.6", rf.func, v[0].node if v else None, okf, "fit always re-initialises (reinitialize=True)", construct="fit reinitialises")
 
 
-def r178_raw_output(ctx):
-    ctx.rule("R17.8", "the raw output that predict thresholds is the predictor network's output on X: _raw_predict returns "
+def r178_raw_output(ctx, rule="R17.8"):
+    ctx.rule(rule, "the raw output that predict thresholds is the predictor network's output on X: _raw_predict returns "
                       "backendEngine_.evaluate(validated X) and both engines' evaluate() apply predictor_model (not the adversary) "
                       "to X in evaluation mode")
     from .common import M_PT, M_TF
@@ -252,7 +252,7 @@ def r178_raw_output(ctx):
     ev = [e for e in r.events if e.kind == "call" and e.data["fterm"].op == "attr" and e.data["fterm"].args[1] == "evaluate"]
     ok = len(ev) == 1 and A.eq(ev[0].data["fterm"].args[0], A.entry(r, "self.backendEngine_")) and r.ret is ev[0].data["result"] \
         and arg(ev[0], 0) is not None and contains(arg(ev[0], 0), lambda s_: s_ is r.params["X"])
-    ctx.ob("R17.8", r.func, ev[0].node if ev else None, ok, "_raw_predict = backendEngine_.evaluate(validated X)", construct="raw predict")
+    ctx.ob(rule, r.func, ev[0].node if ev else None, ok, "_raw_predict = backendEngine_.evaluate(validated X)", construct="raw predict")
     for mod, cls in ((M_PT, "PytorchEngine"), (M_TF, "TensorflowEngine")):
         re_ = A.run(f"{mod}:{cls}.evaluate", cls_ctx=f"{mod}:{cls}")
         calls = [e for e in re_.events if e.kind == "call" and e.data["fterm"].op == "attr" and e.data["fterm"].args[0] is re_.self_term
@@ -265,7 +265,7 @@ def r178_raw_output(ctx):
             evs = [e for e in re_.events if e.kind == "call" and e.data["fterm"].op == "attr" and e.data["fterm"].args[1] == "eval"
                    and e.data["fterm"].args[0] is mk("attr", re_.self_term, "predictor_model")]
             ok = ok and bool(evs) and evs[0].seq < calls[0].seq
-        ctx.ob("R17.8", re_.func, calls[0].node if calls else None, ok, f"{cls}.evaluate applies predictor_model to X in evaluation mode",
+        ctx.ob(rule, re_.func, calls[0].node if calls else None, ok, f"{cls}.evaluate applies predictor_model to X in evaluation mode",
                construct=f"{cls}.evaluate")
 
 
